@@ -1,0 +1,5 @@
+//go:build !verif
+
+package solo
+
+func verifLoopTop(c *Client) {}
